@@ -29,6 +29,18 @@ Proof. exact imm_ok_sound. Qed.
 Theorem C03_expected : all_immutable expected_immutable mut_progs = true.
 Proof. vm_compute. reflexivity. Qed.
 
+(* the conjuncts are also tracked one by one, so that a function that was never fully accepted (a name re-used on different
+   paths trips yields_ok) still may not START binding a mutated variable to a foreign object *)
+Theorem C03_expected_conjuncts :
+  all_hold copies_ok expected_copies_ok mut_progs = true /\
+  all_hold muts_clean expected_muts_clean mut_progs = true /\
+  all_hold yields_ok expected_yields_ok mut_progs = true.
+Proof. vm_compute. repeat split; reflexivity. Qed.
+
+Theorem C03_sources_never_mutated : forall comp prog, copies_ok comp prog = true -> muts_clean comp prog = true ->
+  forall w, Forall (fun ac => In (fst ac) prog) w -> foreign_mutated (arun comp w init_state) = false.
+Proof. exact foreign_sound. Qed.
+
 Theorem C03_listed_functions_never_mutate_foreign_objects : forall name c a,
   In name expected_immutable -> lookup_prog name mut_progs = Some (c, a) ->
   forall w, Forall (fun ac => In (fst ac) a) w ->
@@ -46,4 +58,6 @@ Proof. split; reflexivity. Qed.
 
 Print Assumptions C03_sound.
 Print Assumptions C03_expected.
+Print Assumptions C03_expected_conjuncts.
+Print Assumptions C03_sources_never_mutated.
 Print Assumptions C03_listed_functions_never_mutate_foreign_objects.
